@@ -149,6 +149,9 @@ class Env(object):
         self.buf_kind = {}
         self.obj_eos = {}    # solver object id -> EOS object id (an EOS is released with its last solver)
         self.obj_ic = {}
+        self.freed = {}      # address -> release number; addresses of solver objects this run has released (F6: address reuse is steered, not left to luck)
+        self.addr_reused = 0
+        self.addr_steered = 0
 
 
 def _mk_eos(spec):
@@ -182,9 +185,46 @@ def _do_new(env, op):
                 env.ics[ics["id"]] = dec(ics["val"])
             args.append(env.ics[ics["id"]])
     env.objs[op["obj"]] = None
-    obj = cls(*args, **kw)
+    obj = _steer(env, cls)
+    if obj is None:
+        obj = cls(*args, **kw)
+    else:
+        obj.__init__(*args, **kw)      # what type.__call__ does after __new__ (only taken for plain classes, see _steer)
+    if id(obj) in env.freed:
+        del env.freed[id(obj)]
+        env.addr_reused += 1
     env.objs[op["obj"]] = obj
     return ("ok",)
+
+
+def _steer(env, cls):
+    """F6, address reuse: whether a new solver lands on the address of a dead one depends on the allocator's free
+    lists, i.e. on everything the forking parent did before -- a source of nondeterminism the run must own (a first
+    version that left it to the allocator found an id()-keyed table in one run out of a thousand and could not replay
+    it).  Blank instances are allocated, and kept so that they occupy the blocks that are not wanted, until one sits
+    on the address of a solver this run has released; that instance is then initialised exactly as type.__call__ would
+    (``cls.__new__(cls)`` followed by ``__init__``; classes whose metaclass overrides ``__call__`` or that have their own ``__new__`` are constructed
+    the ordinary way).  Nothing observable may depend on the outcome on a tree where the property holds, so the outcome
+    is a reach counter in the run's tail, never part of the event log."""
+    if not env.freed or type(cls).__call__ is not type.__call__ or cls.__new__ is not object.__new__ or "__del__" in dir(cls):
+        return None
+    fillers = []
+    hits = []
+    for _ in range(STEER_MAX):
+        f = object.__new__(cls)
+        (hits if id(f) in env.freed else fillers).append(f)
+        if len(hits) == len(env.freed):
+            break
+    if not hits:
+        return None
+    # of the released addresses that can be had, the one released last
+    hit = max(hits, key=lambda f: env.freed[id(f)])
+    env.addr_steered += 1
+    del fillers, hits
+    return hit
+
+
+STEER_MAX = 256
 
 
 def _do_cfg(env, op):
@@ -291,8 +331,18 @@ def _do_scribble(env, op):
     return ("notarget",)
 
 
+def _released(env, obj):
+    if len(env.freed) >= 16:
+        del env.freed[min(env.freed, key=env.freed.get)]
+    env.nfreed = getattr(env, "nfreed", 0) + 1
+    env.freed[id(obj)] = env.nfreed
+
+
 def _do_drop(env, op):
-    env.objs.pop(op["obj"], None)
+    gone = env.objs.pop(op["obj"], None)
+    if gone is not None:
+        _released(env, gone)
+        del gone
     # the caller lets go of everything it only held for this solver: its EOS object and initial-conditions dict too
     eid = env.obj_eos.pop(op["obj"], None)
     if eid is not None and eid not in env.obj_eos.values():
@@ -316,6 +366,7 @@ def _do_churn(env, op):
             tmp = {}
             e2 = Env()
             e2.eos, e2.ics = {}, {}
+            e2.freed = env.freed
             sub = dict(op)
             sub["obj"] = "_tmp"
             _do_new(e2, sub)
@@ -326,6 +377,10 @@ def _do_churn(env, op):
                 # construct, use once, discard: leaves behind whatever the solver keyed on the dead objects
                 u = op["use"]
                 e2.objs["_tmp"](make_container(dec(u["pts"]), "nd"), float.fromhex(u["t"]))
+            if e2.objs.get("_tmp") is not None:
+                _released(env, e2.objs["_tmp"])
+            env.addr_reused += e2.addr_reused
+            env.addr_steered += e2.addr_steered
             del e2, tmp
         except Exception:
             pass
@@ -493,7 +548,7 @@ def run_history(spec, want_state=False):
             rec["lines"] = tracer.n
         log.append(rec)
     tail = {"fd_delta": open_fds() - fd0, "alloc_hits": SEAM.alloc_hits, "dep_total": SEAM.dep_total,
-            "dep_names": dict(SEAM.dep_names)}
+            "dep_names": dict(SEAM.dep_names), "addr_reused": env.addr_reused, "addr_steered": env.addr_steered}
     if want_state:
         from . import discover
         tail["state"] = discover.dirty()
